@@ -97,6 +97,41 @@ class SysObj:
         raise Unsupported(f"system.{name}")
 
 
+def add_to_path_stub(st, ex, node):
+    """EngineBase.add_to_path inside a frame loop (its own rule is proved separately): fresh outcome, and two ghost facts the
+    loop contracts use -- no frame may be offered after a stop, and the success flag the loop ends with is the last outcome."""
+    g = st.ghost
+    ex.oblige(st, f"no_frame_is_appended_after_the_stop@{node.lineno}", z3.Not(g.get("stopped", z3.BoolVal(False))))
+    stop, success = fresh("stop", BOOL), fresh("success", BOOL)
+    st.ghost = dict(g, appended=g.get("appended", z3.IntVal(0)) + 1, stopped=stop, last_success=success)
+    return (Opaque("status"), success, stop, fresh("add", BOOL))
+
+
+GHOST_STOP = {"stopped": z3.BoolVal(False), "last_success": z3.BoolVal(False)}
+
+
+def stop_inv(ctx):
+    """Invariant clauses shared by all frame loops."""
+    g = ctx.st.ghost
+    sv = ctx.v("success")
+    sv = sv if z3.is_expr(sv) else z3.BoolVal(bool(sv))
+    return [("loop_continues_only_while_not_stopped", z3.Not(g["stopped"])),
+            ("success_flag_is_the_last_outcome", z3.Or(g["appended"] == g["appended0"], sv == g["last_success"]))]
+
+
+def stop_post(c):
+    g = c.st.ghost
+    sv = c.v("success")
+    sv = sv if z3.is_expr(sv) else z3.BoolVal(bool(sv))
+    return z3.Or(g.get("appended", z3.IntVal(0)) == g.get("appended0", z3.IntVal(0)), sv == g["last_success"])
+
+
+def stop_ghost(c):
+    g = c.st.ghost
+    a0 = g.get("appended", z3.IntVal(0))
+    return {"appended": a0, "appended0": a0, "stopped": z3.BoolVal(False), "last_success": g.get("last_success", z3.BoolVal(False))}
+
+
 class LmpSelf:
     def __init__(self):
         self.calls = []
@@ -133,9 +168,7 @@ class LmpSelf:
             yield st, Opaque("phase_point")
             return
         if name == "add_to_path":
-            stop = fresh("stop", BOOL)
-            st.ghost["appended"] = st.ghost.get("appended", z3.IntVal(0)) + 1
-            yield st, (Opaque("status"), fresh("success", BOOL), stop, fresh("add", BOOL))
+            yield st, add_to_path_stub(st, ex, node)
             return
         raise Unsupported(f"self.{name}")
 
@@ -251,9 +284,10 @@ def _lmp_inv(ctx):
 reg(Contract(
     "LAMMPSEngine._propagate_from#consume", src=(LAMMPS_PY, "LAMMPSEngine._propagate_from"), slice=_consume_slice,
     cases=[Case("sym", _lmp_make)],
-    ensures=[("terminated_process_is_waited_for", lambda c: z3.BoolVal(not c.st.ghost.get("killed") or bool(c.st.ghost.get("waited"))))],
+    ensures=[("terminated_process_is_waited_for", lambda c: z3.BoolVal(not c.st.ghost.get("killed") or bool(c.st.ghost.get("waited")))),
+             ("reported_success_is_the_outcome_of_the_last_frame", stop_post)],
     canaries=[("never_consumes", lambda c: c.st.ghost.get("appended", z3.IntVal(0)) == 0)],
-    loops={"for:frame": LoopSpec(_lmp_inv, ghost_init=lambda c: {"appended": c.st.ghost.get("appended", z3.IntVal(0))})},
+    loops={"for:frame": LoopSpec(lambda ctx: _lmp_inv(ctx) + stop_inv(ctx), ghost_init=stop_ghost)},
 ))
 
 
